@@ -22,6 +22,10 @@ type site struct {
 	File    string `json:"file"`
 	Line    int    `json:"line"`
 	KeyType string `json:"key_type"`
+	// for select statements: element type of each receive case ("" for send/default
+	// cases or when the type cannot be named in that file, "-" when no value is bound)
+	Select []string `json:"select,omitempty"`
+	Kind   string   `json:"kind,omitempty"` // "" = map range, "select"
 }
 
 func main() {
@@ -81,6 +85,50 @@ func main() {
 				return q.Name()
 			}
 			ast.Inspect(f, func(n ast.Node) bool {
+				if sel, isSel := n.(*ast.SelectStmt); isSel {
+					var elems []string
+					for _, cc := range sel.Body.List {
+						c := cc.(*ast.CommClause)
+						var recv ast.Expr
+						binds := false
+						switch st := c.Comm.(type) {
+						case *ast.ExprStmt:
+							recv = st.X
+						case *ast.AssignStmt:
+							if len(st.Rhs) == 1 {
+								recv = st.Rhs[0]
+								binds = true
+							}
+						}
+						ue, isRecv := recv.(*ast.UnaryExpr)
+						if recv == nil || !isRecv {
+							elems = append(elems, "")
+							continue
+						}
+						if !binds {
+							elems = append(elems, "-")
+							continue
+						}
+						tv, found := p.TypesInfo.Types[ue.X]
+						if !found {
+							elems = append(elems, "?")
+							continue
+						}
+						ch, isCh := tv.Type.Underlying().(*types.Chan)
+						if !isCh {
+							elems = append(elems, "?")
+							continue
+						}
+						ok = true
+						es := types.TypeString(ch.Elem(), qual)
+						if !ok {
+							es = "?"
+						}
+						elems = append(elems, es)
+					}
+					sites = append(sites, site{File: rel, Line: p.Fset.Position(sel.Pos()).Line, Kind: "select", Select: elems})
+					return true
+				}
 				r, isR := n.(*ast.RangeStmt)
 				if !isR {
 					return true
@@ -98,7 +146,7 @@ func main() {
 				if !ok || strings.Contains(ks, "struct{") || strings.Contains(ks, "interface{") && ks != "interface{}" {
 					ks = ""
 				}
-				sites = append(sites, site{rel, p.Fset.Position(r.Pos()).Line, ks})
+				sites = append(sites, site{File: rel, Line: p.Fset.Position(r.Pos()).Line, KeyType: ks})
 				return true
 			})
 		}
